@@ -1,6 +1,6 @@
 (* Correspondence cases for utils.py: inputs and the implementation's outputs; [ok] runs the
    model and compares. *)
-From DS Require Import Base.Prelude Base.Bits Model.Utils Model.UtilsFloat Model.UtilsF32.
+From DS Require Import Base.Prelude Base.Bits Model.Utils Model.UtilsFloat Model.UtilsF32 Model.UtilsStr.
 From Flocq Require Import IEEE754.Binary IEEE754.Bits.
 
 Inductive ucase :=
@@ -19,7 +19,16 @@ Inductive ucase :=
 | CRealToBinary64 (bits : Z) (out : list bool)
 | CBytesToReal64 (l : list Z) (le : bool) (outbits : option Z)
 | CRealToBytes32 (bits64 : Z) (le : bool) (out : option (list Z))
-| CBytesToReal32 (l : list Z) (le : bool) (outbits64 : option Z).
+| CBytesToReal32 (l : list Z) (le : bool) (outbits64 : option Z)
+(* str variants: a str is its list of code points (possibly above 255) *)
+| CStringToInt (s : list Z) (le : bool) (out : option Z)
+| CStringToUint (s : list Z) (le : bool) (out : option Z)
+| CStringToBinary (s : list Z) (le : bool) (out : option (list bool))
+| CBinaryToString (s : list bool) (le : bool) (out : list Z)
+| CIntToString (v : Z) (n : nat) (le : bool) (out : option (list Z))
+| CUintToString (v : Z) (n : nat) (le : bool) (out : option (list Z))
+| CDayUs (h mi s us out : Z)
+| CDayMs (h mi s us out : Z).
 
 Definition blist_eqb := list_eqb Bool.eqb.
 
@@ -42,4 +51,12 @@ Definition ok (c : ucase) : bool :=
       option_eqb Z.eqb (option_map bits_of_b64 (bytes_to_real64 l le)) o
   | CRealToBytes32 b le o => option_eqb zlist_eqb (real_to_bytes32 b le) o
   | CBytesToReal32 l le o => option_eqb Z.eqb (bytes_to_real32 l le) o
+  | CStringToInt s le o => option_eqb Z.eqb (string_to_int s le) o
+  | CStringToUint s le o => option_eqb Z.eqb (string_to_uint s le) o
+  | CStringToBinary s le o => option_eqb blist_eqb (string_to_binary s le) o
+  | CBinaryToString s le o => zlist_eqb (binary_to_string s le) o
+  | CIntToString v n le o => option_eqb zlist_eqb (int_to_string v n le) o
+  | CUintToString v n le o => option_eqb zlist_eqb (uint_to_string v n le) o
+  | CDayUs h mi s us o => day_microseconds h mi s us =? o
+  | CDayMs h mi s us o => day_milliseconds h mi s us =? o
   end.
